@@ -88,5 +88,5 @@ CmpQ(reg, ac, a, b, op) ==
          IF ~IsOk(ra) THEN ra ELSE IF ~IsOk(rb) THEN rb ELSE Bool(CmpRat(op, ra.m, rb.m))
 \* hash: of the quantity in base units (no system: root units); a dimensionless one hashes as its number
 HashKeyQ(reg, ac, q) == LET r == ToRoot(reg, ac, q) IN
-    IF ~IsOk(r) THEN <<"unhashable">> ELSE IF r.u = Empty THEN <<"num", r.m>> ELSE <<"q", r.m, r.u>>
+    IF ~IsOk(r) THEN <<"unhashable">> ELSE IF Dimless(reg, q) THEN <<"num", r.m>> ELSE <<"q", r.m, r.u>>
 =============================================================================
